@@ -247,6 +247,9 @@ impl Checker {
         }
         for chunking in &chunkings {
             watch::tick();
+            if data.len() <= 4096 {
+                watch::set_input(fmt.name(), &format!("{:?}", chunking), data);
+            }
             let run = run_reader(fmt, alpha, data, chunking.policy(), &plan);
             rep.eval_distinct(nontrivial);
             // terminal outcome statistics (first terminal item of the main phase)
@@ -487,6 +490,66 @@ fn run_short_strings(ctx: &mut Ctx, rep: &mut Report, ck: &mut Checker, base: &m
     }
 }
 
+/// Per-format line menus of the `short_lines` space.
+fn line_menu(fmt: Fmt) -> &'static [&'static str] {
+    match fmt {
+        Fmt::Jaspar => &[">", ">a b", "", "1", "1 2", " 3", "x", "1 2 "],
+        Fmt::Jaspar16 => &[">a", "", "A [ 1 ]", "C [ 1 2 ]", "A [ ]", "A [", "Z [ 1 ]", "A 1"],
+        Fmt::Transfac => &["VV 1", "XX", "//", "AC a", "P0 A C", "P0", "01 1 2", "01 1", "RN [1]", "DT 1.1.1 (created); x."],
+        Fmt::Uniprobe => &["id", "", "A:\t0.5", "A:\t0.5\t0.5", "C:\t0.5", "A:", "A:\tx", "Z:\t1"],
+    }
+}
+
+fn run_short_lines(ctx: &mut Ctx, rep: &mut Report, ck: &mut Checker, base: &mut u64) {
+    let maxlines = if ctx.quick() { 5 } else { 6 };
+    rep.space(
+        "short_lines",
+        "7 readers x ALL sequences of 1..=5 (thorough 1..=6) lines drawn from a per-format menu of 8-10 lines          [jaspar: '>', '>a b', '', '1', '1 2', ' 3', 'x', '1 2 '; jaspar16: '>a', '', 'A [ 1 ]', 'C [ 1 2 ]', 'A [ ]', 'A [', 'Z [ 1 ]', 'A 1';          transfac: 'VV 1', 'XX', '//', 'AC a', 'P0 A C', 'P0', '01 1 2', '01 1', 'RN [1]', 'DT 1.1.1 (created); x.'; uniprobe: 'id', '', 'A:<tab>0.5', 'A:<tab>0.5<tab>0.5', 'C:<tab>0.5', 'A:', 'A:<tab>x', 'Z:<tab>1']          x {final newline present, absent} x chunkings {whole, 1-byte chunks, one cut at the start of the last line}; same oracle as short_strings; non-trivial = all          (this family contains headers without matrix, ragged and empty rows, duplicated symbol lines, truncated last lines)",
+    );
+    rep.sample_space(1, || json!({"format": "jaspar", "lines": [">", "1", "1 2", "1", "1"], "final_newline": true}));
+    for (ri, (fmt, alpha)) in READERS.iter().copied().enumerate() {
+        let menu: Vec<String> = line_menu(fmt).iter().map(|l| l.to_string()).collect();
+        let m = menu.len() as u64;
+        for nl in 1..=maxlines {
+            let total = m.pow(nl as u32);
+            let mut start = 0u64;
+            while start < total {
+                let end = (start + 250).min(total);
+                let idx = *base;
+                *base += 1;
+                if ctx.mine(idx) {
+                    watch::beat(15, ri as u64, 300 + nl as u64, start);
+                    for s in start..end {
+                        let mut x = s;
+                        let mut picks = vec![0usize; nl];
+                        for i in (0..nl).rev() {
+                            picks[i] = (x % m) as usize;
+                            x /= m;
+                        }
+                        let mut data = Vec::new();
+                        let mut last_start = 0;
+                        for &pk in &picks {
+                            last_start = data.len();
+                            data.extend_from_slice(menu[pk].as_bytes());
+                            data.push(b'\n');
+                        }
+                        for final_nl in [true, false] {
+                            let d = if final_nl { &data[..] } else { &data[..data.len() - 1] };
+                            let origin = Origin { base: "-".into(), fault: "short-lines", detail: format!("lines {:?} final newline {}", picks, final_nl) };
+                            ck.check(rep, fmt, alpha, d, last_start, true, &origin);
+                        }
+                    }
+                }
+                start = end;
+            }
+            if ctx.out_of_time() {
+                rep.cap(format!("short_lines: wall-clock cap at reader {} with {} lines", fmt.name(), nl));
+                return;
+            }
+        }
+    }
+}
+
 fn run_structural(ctx: &mut Ctx, rep: &mut Report, ck: &mut Checker, base: &mut u64, bases: &[(usize, Base)]) {
     rep.space(
         "structural",
@@ -626,6 +689,9 @@ pub fn run(ctx: &mut Ctx, rep: &mut Report) {
 
     if ctx.wants("short_strings") {
         run_short_strings(ctx, rep, &mut ck, &mut base);
+    }
+    if !ctx.capped && ctx.wants("short_lines") {
+        run_short_lines(ctx, rep, &mut ck, &mut base);
     }
     if !ctx.capped && ctx.wants("structural") {
         run_structural(ctx, rep, &mut ck, &mut base, &bases);
